@@ -193,4 +193,118 @@ theorem Entries.unique {b : Bytes} {es es' : List Bytes} (h : Entries b es) (h' 
 example : Entries [10, 47, 47, 32, 97, 32, 10, 10, 47, 47, 98] [[], [32, 97], [], [98]] :=
   .lf _ _ (Entries.commentLF [32, 97, 32] _ _ (by decide) (.lf _ _ (Entries.commentEnd [98] (by decide))))
 
+/-! ### entries and the after-newline flag -/
+
+/-- either a line feed was crossed, or none was and then either no entry was added or the scan stopped at the end of
+    the input / at a NUL byte (the only way a comment ends without a line feed) -/
+def NSpec (b : Bytes) (m : Option Bytes) (t : Trivia) : Prop :=
+  ∃ k, (scanTrivia b m t).len = t.len + k ∧
+    ((scanTrivia b m t).nl = true ∨
+     ((scanTrivia b m t).nl = t.nl ∧ ((m = none ∧ (scanTrivia b m t).comments = t.comments) ∨ (b.drop k).headD 0 = 0)))
+
+theorem scanTrivia_nl : ∀ (n : Nat) (b : Bytes), b.length ≤ n → ∀ (m : Option Bytes) (t : Trivia), NSpec b m t := by
+  intro n
+  induction n with
+  | zero =>
+    intro b hb m t
+    have : b = [] := List.eq_nil_of_length_eq_zero (by omega)
+    subst this
+    cases m with
+    | none => exact ⟨0, rfl, Or.inr ⟨by simp [scanTrivia], Or.inl ⟨rfl, by simp [scanTrivia]⟩⟩⟩
+    | some acc => exact ⟨0, rfl, Or.inr ⟨by simp [scanTrivia], Or.inr rfl⟩⟩
+  | succ n ih =>
+    intro b hb m t
+    cases b with
+    | nil =>
+      cases m with
+      | none => exact ⟨0, rfl, Or.inr ⟨by simp [scanTrivia], Or.inl ⟨rfl, by simp [scanTrivia]⟩⟩⟩
+      | some acc => exact ⟨0, rfl, Or.inr ⟨by simp [scanTrivia], Or.inr rfl⟩⟩
+    | cons c r =>
+      have hr : r.length ≤ n := by simp at hb; omega
+      cases m with
+      | some acc =>
+        by_cases h10 : c = 10
+        · subst h10
+          obtain ⟨k, hl, hd⟩ := ih r hr none { nl := true, comments := t.comments ++ [trimRightSpaces acc], len := t.len + 1 }
+          refine ⟨k + 1, by rw [st_c_lf, hl]; simp only; omega, Or.inl ?_⟩
+          rw [st_c_lf]
+          rcases hd with hd | ⟨hd, _⟩
+          · exact hd
+          · exact hd
+        · by_cases h0 : c = 0
+          · subst h0
+            exact ⟨0, by rw [st_c_nul]; rfl, Or.inr ⟨by rw [st_c_nul], Or.inr rfl⟩⟩
+          · obtain ⟨k, hl, hd⟩ := ih r hr (some (acc ++ [c])) { t with len := t.len + 1 }
+            refine ⟨k + 1, by rw [st_c_other c r acc t h10 h0, hl]; simp only; omega, ?_⟩
+            rw [st_c_other c r acc t h10 h0]
+            rcases hd with hd | ⟨hd, hd2⟩
+            · exact Or.inl hd
+            · refine Or.inr ⟨hd, Or.inr ?_⟩
+              rcases hd2 with ⟨hx, _⟩ | hd2
+              · cases hx
+              · simpa using hd2
+      | none =>
+        by_cases h10 : c = 10
+        · subst h10
+          obtain ⟨k, hl, hd⟩ := ih r hr none { nl := true, comments := t.comments ++ [[]], len := t.len + 1 }
+          refine ⟨k + 1, by rw [st_n_lf, hl]; simp only; omega, Or.inl ?_⟩
+          rw [st_n_lf]
+          rcases hd with hd | ⟨hd, _⟩
+          · exact hd
+          · exact hd
+        · by_cases hw : isWs c = true
+          · obtain ⟨k, hl, hd⟩ := ih r hr none { t with len := t.len + 1 }
+            refine ⟨k + 1, by rw [st_n_ws c r t hw h10, hl]; simp only; omega, ?_⟩
+            rw [st_n_ws c r t hw h10]
+            rcases hd with hd | ⟨hd, hd2⟩
+            · exact Or.inl hd
+            · refine Or.inr ⟨hd, ?_⟩
+              rcases hd2 with ⟨_, hd2⟩ | hd2
+              · exact Or.inl ⟨rfl, hd2⟩
+              · exact Or.inr (by simpa using hd2)
+          · have hw' : isWs c = false := by simpa using hw
+            by_cases h47 : c = 47
+            · subst h47
+              cases r with
+              | nil => exact ⟨0, by rw [st_n_slash1]; rfl, Or.inr ⟨by rw [st_n_slash1], Or.inl ⟨rfl, by rw [st_n_slash1]⟩⟩⟩
+              | cons c2 r2 =>
+                by_cases h2 : c2 = 47
+                · subst h2
+                  obtain ⟨k, hl, hd⟩ := ih r2 (by simp at hr; omega) (some []) { t with len := t.len + 2 }
+                  refine ⟨k + 2, by rw [st_n_comment, hl]; simp only; omega, ?_⟩
+                  rw [st_n_comment]
+                  rcases hd with hd | ⟨hd, hd2⟩
+                  · exact Or.inl hd
+                  · refine Or.inr ⟨hd, Or.inr ?_⟩
+                    rcases hd2 with ⟨hx, _⟩ | hd2
+                    · cases hx
+                    · simpa using hd2
+                · exact ⟨0, by rw [st_n_slash2 c2 r2 t h2]; rfl, Or.inr ⟨by rw [st_n_slash2 c2 r2 t h2], Or.inl ⟨rfl, by rw [st_n_slash2 c2 r2 t h2]⟩⟩⟩
+            · exact ⟨0, by rw [st_n_stop c r t hw' h47]; rfl, Or.inr ⟨by rw [st_n_stop c r t hw' h47], Or.inl ⟨rfl, by rw [st_n_stop c r t hw' h47]⟩⟩⟩
+
+/-- a token that carries entries but does not follow a line break stands at the end of the input or on a NUL byte —
+    in particular it is no `++` / `--` (a comment ends at a line feed, except the last one of the input) -/
+theorem entries_without_line_break (s : LS) (hc : (nextToken s).1.comments ≠ []) (hn : (nextToken s).1.nl = false) :
+    (readChars (trivia s.rest).len s).cur = 0 ∧
+    (nextToken s).1.type ≠ .increment ∧ (nextToken s).1.type ≠ .decrement := by
+  obtain ⟨k, hl, hd⟩ := scanTrivia_nl s.rest.length s.rest (Nat.le_refl _) none { nl := false, comments := [], len := 0 }
+  have hlen : (trivia s.rest).len = k := by unfold trivia; rw [hl]; simp
+  have hnl : (nextToken s).1.nl = (trivia s.rest).nl := by
+    unfold nextToken; exact (baseNextToken_start _ _ _).2.2.1
+  have hcm : (nextToken s).1.comments = (trivia s.rest).comments := by
+    unfold nextToken; exact (baseNextToken_start _ _ _).2.2.2
+  rw [hnl] at hn; rw [hcm] at hc
+  have hcur : (readChars (trivia s.rest).len s).cur = 0 := by
+    unfold LS.cur; rw [readChars_rest, hlen]
+    rcases hd with hd | ⟨_, hd⟩
+    · unfold trivia at hn; rw [hd] at hn; cases hn
+    · rcases hd with ⟨_, hd⟩ | hd
+      · unfold trivia at hc; rw [hd] at hc; exact absurd rfl hc
+      · exact hd
+  refine ⟨hcur, ?_, ?_⟩ <;>
+  · unfold nextToken baseNextToken
+    simp only [hcur]
+    simp
+    split <;> simp [mkTok]
+
 end Xjs.Tiling
